@@ -232,15 +232,15 @@ def infer_dtype(values: Iterable[Any]) -> DataType:
     <object>
     """
     dtype: Optional[DataType] = None
+    saw_none = False
 
     for v in values:
-        if dtype is None:
-            # First element
-            k = infer_kind(v)
-            if k is None:
-                dtype = DataType(object, nullable=True)
-            else:
-                dtype = DataType(k, nullable=False)
+        if v is None:
+            # None only adds nullability, wherever it occurs
+            saw_none = True
+        elif dtype is None:
+            # First non-None element fixes the starting kind
+            dtype = DataType(infer_kind(v), nullable=False)
         else:
             dtype = dtype.promote_with(v)
 
@@ -248,6 +248,8 @@ def infer_dtype(values: Iterable[Any]) -> DataType:
     if dtype is None:
         return DataType(object, nullable=True)
 
+    if saw_none:
+        return dtype.with_nullable(True)
     return dtype
 
 
